@@ -325,6 +325,22 @@ def discharge_local(site, vres=None):
             site.discharge = "const"
             return "const"
         return None
+    if site.kind == "sliceop" and site.what in ("split_at", "split_at_mut", "split_at_checked"):
+        # bytes/str of X cut at an index that is a char_indices() position of a prefix of X, or valid_up_to() of X's own UTF-8 error:
+        # both are <= len(X) (std), so the cut cannot be out of range  [the char-boundary side is R13.1's business]
+        parts = split_top("X(" + (site.operand or "") + ")")
+        args_ = parts[1] if parts else []
+        if len(args_) == 2:
+            base, idx = args_
+            mb = re.fullmatch(r"(?:as_encoded_bytes|as_bytes)\((.*)\)", base)
+            x = mb.group(1) if mb else base
+            m1 = re.fullmatch(r"next\((.*)\.utf8_prefix\)#Some\.0\.0", idx)
+            m2 = re.fullmatch(r"valid_up_to\(try_str\((.*)\)#Err\.0\)", idx)
+            if (m1 and x == m1.group(1) + ".inner") or (m2 and x == m2.group(1)):
+                site.discharge = "G"
+                site.detail = "cut index is a char_indices()/valid_up_to() position of the same string (<= its length)"
+                return "G"
+        return None
     if site.kind == "index":
         # full-range indexing never panics
         if re.search(r"\[RangeFull", site.operand or ""):
